@@ -37,6 +37,12 @@ CHECKS = {
     "C01": dict(cat="model_checking", tech="explicit-state BFS of implDFA x referenceDFA x unspecified-clause monitor, all paths",
                 text="For every built expression of the bounded program space whose documented meaning is specified, all reachable states of the product of the implementation's automaton, an independently compiled reference automaton of the documented semantics and the U1-U3 monitor are explored; any state where acceptance differs is a counterexample of unbounded length; every state is replayed through is_match.",
                 ref="DESIGN.md §3 C01, §2.4", note=MC_NOTE + " The reference is three-valued (U1-U5, DESIGN §2.4)."),
+    "C05": dict(cat="exploration", tech="exhaustive short strings + closed bound / depth families in isolated worker processes; every public operation",
+                text="Every string up to length L over the 22-symbol meta alphabet, every expression of the program space, the closed family of repetition bounds at and beyond the machine word and the closed family of nesting depths / widths (isolated in worker processes with address-space and CPU limits so that an abort is observed, not suffered): build, then every public operation and six candidate paths on every built glob; no panic, no abort, errors only of the three documented kinds.",
+                ref="DESIGN.md §3 C05", note="Trusted base: catch_unwind observes every panic; a worker that dies on a signal is attributed to the case in flight. A CPU-limit kill is reported as inconclusive, not as a verdict."),
+    "C17": dict(cat="exploration", tech="exhaustive short strings (with multi-byte characters) + program space; span validity and reference token spans",
+                text="Every string up to length L over the meta alphabet with 金 and é and every expression of the program space: all spans of all build errors lie inside the expression on character boundaries and slice without panicking; capture spans of every built glob and of its partition equal the reference parser's token spans.",
+                ref="DESIGN.md §3 C17", note="Trusted base: the reference parser's token spans (print/parse round trip checked); a span extended left over adjacent flag groups is accepted."),
     "C06": dict(cat="exploration", tech="bounded-exhaustive enumeration of the expression grammar vs a compositional three-valued reference rule checker",
                 text="Every expression of the documented syntax up to the size bound (all arrangements of branches nested to depth 3 at every position, every combination of sibling branches), the reduced alphabet at larger sizes, the corpus and the size family: Glob::new(e).is_ok() must equal the verdict of a reference that evaluates the documented rules over all expansions (not by neighbour inspection); every built glob must report has_root() != Sometimes.",
                 ref="DESIGN.md §3 C06, Appendix D", note="Trusted base: the reference rule checker is right where it is specified (three-valued: unspecified bands are excluded and counted); error kinds are not compared."),
